@@ -187,10 +187,12 @@ def gen_case(rng):
         mode = rng.choice(["consistent", "consistent", "inconsistent"])
         if mode == "consistent":
             pre = {v: sigma0[v]}
+        elif v in fs and v not in tv:
+            pre = {v: ["var", rng.choice(FUNCS)]}       # a function symbol can only stand for a symbol
         else:
             pre = {v: gen_term(rng, 1)}
     elif r < 0.42:
-        cands = [v for v in VARS if v not in free]
+        cands = [v for v in VARS if v not in free and v not in fs]
         if cands and freearg is not None:
             pre = {rng.choice(cands): gen_term(rng, 0)}
             cls = cls + "+noncandidate-prematch"
